@@ -38,6 +38,7 @@ func runC18(c *Ctx) {
 		c18AlphaArgs(c, p)
 		c18Blend(c, p)
 		c18ExactOptions(c, p)
+		runMonotoneFlags(c, p, "mux", "internal/container", "animation", "")
 	}
 }
 
